@@ -261,7 +261,7 @@ int main(int argc, char** argv) {
             face_type_parameters ft;
             ft.name_ = "f" + std::to_string(k);
             ft.face_type_global_id_ = (short)(ct->global_type_id_ == 0 ? k : 3);
-            ft.surface_tension_ = 1e-3; ft.adherence_strength_ = 1e9; ft.repulsion_strength_ = 1e9; ft.bending_modulus_ = 0.;
+            ft.surface_tension_ = 1e-3; ft.adherence_strength_ = 1e9; ft.repulsion_strength_ = 1e9; ft.bending_modulus_ = C.has("kb") ? C["kb"].d() : 0.;
             ct->add_face_type(ft);
         }
         cell_ptr c;
